@@ -378,18 +378,23 @@ def find_top(ctx, world):
             return "keep"
         if c.pol(a_isbox) is not True:
             return "odd:isbox not tested"
-        if c.pol(a_ge) is not None:
-            return "odd:non-strict comparison"
-        if c.pol(a_gt) is True:
+        # which order relations between the argument's trace id and the current top are possible on this path
+        # (trichotomy: the tests `id < top`, `id == top`, `top < id` each confirm one relation or exclude it)
+        rel = {"lt", "eq", "gt"}
+        for atom_, name_ in ((a_ge, "lt"), (a_eq, "eq"), (a_gt, "gt")):
+            p_ = c.pol(atom_)
+            if p_ is True:
+                rel &= {name_}
+            elif p_ is False:
+                rel -= {name_}
+        if rel == {"gt"}:
             return "reset"
-        if c.pol(a_gt) is False and c.pol(a_eq) is True:
+        if rel == {"eq"}:
             return "append"
-        if c.pol(a_gt) is False and c.pol(a_eq) is False:
-            return "keep"
-        if c.pol(a_eq) is True and c.pol(a_gt) is None:
-            return "append"
-        if c.pol(a_gt) is False and c.pol(a_eq) is None:
-            return "keep"  # the equality is not consulted on this path: nothing may change
+        if rel == {"lt"} or rel == {"lt", "eq"}:
+            return "keep"  # older trace (or: the equality is not consulted on this path): nothing may change
+        if rel == {"eq", "gt"}:
+            return "odd:non-strict comparison"
         return "odd:comparison"
 
     problems_reset, problems_append = [], []
@@ -925,6 +930,22 @@ def global_effects(ctx, world, thread=False):
                     f"{fq} performs a {how}: `{norm_text(x)[:80]}` - process-global state written outside the registration API",
                     "two identical differentiation calls separated by any other autograd call: the second one observes state left by the history",
                 )
+            # mutable default arguments: the default object is created once, at definition time, and shared by every
+            # call in every thread - a module-level container in disguise.  Reported when the body mutates it.
+            a_ = fnode.args
+            pos_ = a_.posonlyargs + a_.args
+            dflt_ = list(zip(pos_[len(pos_) - len(a_.defaults):], a_.defaults)) + [(p_, d_) for p_, d_ in zip(a_.kwonlyargs, a_.kw_defaults) if d_ is not None]
+            for p_, d_ in dflt_:
+                mutable = isinstance(d_, (ast.List, ast.Dict, ast.Set, ast.ListComp, ast.DictComp, ast.SetComp)) or (isinstance(d_, ast.Call) and isinstance(d_.func, (ast.Name, ast.Attribute)) and (d_.func.id if isinstance(d_.func, ast.Name) else d_.func.attr) in ("list", "dict", "set", "defaultdict", "deque", "OrderedDict", "Counter", "bytearray"))
+                if not mutable:
+                    continue
+                rebound = any(isinstance(x, (ast.Assign, ast.AugAssign, ast.AnnAssign)) and any(isinstance(t_, ast.Name) and t_.id == p_.arg for t_ in (x.targets if isinstance(x, ast.Assign) else [x.target])) for x in own)
+                writes = [x for x in own if (isinstance(x, ast.Call) and isinstance(x.func, ast.Attribute) and x.func.attr in MUTATORS and isinstance(x.func.value, ast.Name) and x.func.value.id == p_.arg) or (isinstance(x, (ast.Assign, ast.AugAssign, ast.Delete)) and any(isinstance(t_, ast.Subscript) and isinstance(t_.value, ast.Name) and t_.value.id == p_.arg for t_ in (x.targets if isinstance(x, (ast.Assign, ast.Delete)) else [x.target])))]
+                inst = f"{fq}:default {p_.arg}"
+                if writes and not rebound:
+                    ctx.fail("A11.state", inst, f"{fq}|mutable-default|{p_.arg}", loc_of(mod, writes[0]), f"{fq} mutates its mutable default argument `{p_.arg}={norm_text(d_)[:30]}` (`{norm_text(writes[0])[:60]}`): the default object is created once and shared by all calls and all threads", "two differentiations interleaved in two threads (or one that raised while the container was non-empty, then any other)")
+                else:
+                    ctx.ob("A11.state", inst, True, loc_of(mod, d_), nontrivial=False)
             # caches by decorator
             if isinstance(fnode, ast.FunctionDef):
                 for d in fnode.decorator_list:
